@@ -127,8 +127,10 @@ type Cluster struct {
 	down       map[int]bool // nodes taken down
 	arrivals   map[int]int  // command id -> how many times a node processed it (any outcome)
 	connOf     map[net.Conn]int
-	fault      string   // injected fault for the next plain data request: er | cb | ac
-	parkedConn net.Conn // the connection whose CLUSTER SLOTS request is parked (kept open when its node goes down)
+	fault      string                // injected fault for the next plain data request: er | cb | ac
+	stalled    map[int]chan struct{} // node -> release channel: data requests to it are held unprocessed
+	held       int                   // data requests currently held by a stalled node
+	parkedConn net.Conn              // the connection whose CLUSTER SLOTS request is parked (kept open when its node goes down)
 	closed     bool
 	conns      map[net.Conn]struct{}
 	wg         sync.WaitGroup
@@ -197,6 +199,10 @@ func (d *Cluster) Close() {
 	if d.parked != nil {
 		close(d.parked)
 		d.parked = nil
+	}
+	for n, ch := range d.stalled {
+		close(ch)
+		delete(d.stalled, n)
 	}
 	for c := range d.conns {
 		c.Close()
@@ -517,6 +523,7 @@ func (d *Cluster) serve(node int, c net.Conn) {
 		if err != nil {
 			return
 		}
+		d.holdIfStalled(node, args)
 		reply := d.handle(node, st, args)
 		if reply == "" {
 			bw.Flush() // replies already produced on this connection are delivered
@@ -877,4 +884,55 @@ func (d *Cluster) AllExecuted(ids []int) bool {
 		}
 	}
 	return true
+}
+
+// ---------------------------------------------------------------- stalling a node
+
+// Stall makes node n hold every data request it receives (the bytes are read,
+// nothing is processed or answered) until Unstall: a slow node / stalled
+// connection. Connections opened later are held as well while the stall lasts.
+func (d *Cluster) Stall(n int) {
+	d.mu.Lock()
+	if d.stalled == nil {
+		d.stalled = map[int]chan struct{}{}
+	}
+	if _, ok := d.stalled[n]; !ok {
+		d.stalled[n] = make(chan struct{})
+	}
+	d.mu.Unlock()
+}
+
+func (d *Cluster) Unstall(n int) {
+	d.mu.Lock()
+	if ch, ok := d.stalled[n]; ok {
+		close(ch)
+		delete(d.stalled, n)
+	}
+	d.mu.Unlock()
+}
+
+// HeldCount: data requests received by a stalled node and not processed yet.
+func (d *Cluster) HeldCount() int {
+	d.mu.Lock()
+	defer d.mu.Unlock()
+	return d.held
+}
+
+func (d *Cluster) holdIfStalled(node int, args []string) {
+	switch strings.ToLower(args[0]) {
+	case "cluster", "command", "ping", "asking", "multi", "exec":
+		return
+	}
+	d.mu.Lock()
+	ch, ok := d.stalled[node]
+	if ok {
+		d.held++
+	}
+	d.mu.Unlock()
+	if ok {
+		<-ch
+		d.mu.Lock()
+		d.held--
+		d.mu.Unlock()
+	}
 }
